@@ -336,13 +336,20 @@ def _run(ctx, api, DefaultParameters, res, rng, deep):
         t0 = time.time()
         snc = space(gA, spaces_A, "SNC", 0)
         rwgA = space(gA, spaces_A, "RWG", 0)
-        rwgB = space(gB, spaces_B, "RWG", 0)
+        rwgB_whole = space(gB, spaces_B, "RWG", 0)
         rt = RefSpace(snc)
         ks = [("real-k", _rand_k(rng, False)), ("complex-k", _rand_k(rng, True))]
-        for part in maxwell_parts:
+        trial_variants = [(rwgB_whole, "")]
+        labelsB = [int(x) for x in gB.domain_indices]
+        if thorough and len(set(labelsB)) > 1:
+            # a trial space on the segment of the LAST element: its support is not a leading block of the element list
+            # (seed C07-b indexed the coefficient vector of the magnetic potential by the position in the support list)
+            trial_variants.append((space(gB, spaces_B, "RWG", 0, segments=[labelsB[-1]], include_boundary_dofs=True), "-segment"))
+        for part, (rwgB, vtag) in [(p_, v_) for p_ in maxwell_parts for v_ in trial_variants]:
             bctor = api.operators.boundary.maxwell.magnetic_field if part == "M" else api.operators.boundary.maxwell.electric_field
             pctor = api.operators.potential.maxwell.magnetic_field if part == "M" else api.operators.potential.maxwell.electric_field
             for tag, k in ks:
+                tag = tag + vtag
                 rungs = []
                 for order in orders + ([8] if part == "E" and thorough else []):
                     p = DefaultParameters()
